@@ -414,8 +414,8 @@ def smd_read(data: bytes):
 def smd_canon(mesh) -> Any:
     return {
         'bones': sorted([k, b.name, b.parent.name if b.parent is not None else None] for k, b in mesh.bones.items()),
-        'anim': {str(t): [[f.bone.name, list(f.position), list(f.rotation)] for f in fr]
-                 for t, fr in sorted(mesh.animation.items())},
+        'anim': [[t, [[f.bone.name, list(f.position), list(f.rotation)] for f in fr]]
+                 for t, fr in sorted(mesh.animation.items())],
         'tris': [[t.mat, [[list(v.pos), list(v.norm), v.tex_u, v.tex_v, [[b.name, w] for b, w in v.links]]
                           for v in t]] for t in mesh.triangles],
     }
